@@ -204,6 +204,10 @@ def check(ctx):
                 ctx.require(v is not None and lib.mentions_field(v, tr), "R-COVER", "cidinfo:" + st, "%s := value.%s" % (st, tr),
                             "CidInfo.%s is built from `%s`, expected the %s" % (st, show(v) if v else None, tr))
 
+    # 4b. everything executed in the run is in the data: a consumed host result is recorded exactly once on every path
+    ctx.clause("R-PAIR a host result consumed in the run is recorded as exactly one trace state on success and on both failure paths")
+    common.result_recorded_once(ctx, F)
+
     # 5 ranges
     for adt, const, start, width in RANGES:
         c = F.const("error_codes::" + const)
